@@ -346,3 +346,93 @@ def check_ntt(smt2, params, spec_):
                             return {"status": "FAIL", "stats": stats, "replay_inputs": allmax, "detail": "inverse: column %d prime %d not geometric at row %d" % (j, k, p)}
     stats["analysis_s"] = round(time.time() - t0, 2)
     return {"status": "PASS", "stats": stats}
+
+
+# ------------------------------------------------------------------------------------------------- products at ell = 10000
+def check_product_big(smt2, params, spec_):
+    """h_prod_big: operands are uninitialised local arrays; one streaming pass over the (large) exported VC."""
+    import re
+    form, ell, qs = params["form"], params["ell"], params["primes"]
+    y32 = form >= 2
+    M32, M64 = (1 << 32) - 1, (1 << 64) - 1
+    dom = vcalg.IntDom()
+
+    def arr_range(name, idx, width):
+        if "xbig" in name:
+            return (0, M32 if form == 0 else M64)
+        if "ybig" in name:
+            return (0, M32 if (form == 0 or y32) else M64)
+        return (0, (1 << width) - 1)
+
+    dom.array_range = arr_range
+    dom.name_range = lambda name, width: arr_range(name, 0, width)
+    congruence = ell <= params.get("congruence_up_to", 128)
+    if not congruence:
+        dom.max_terms = 48  # interval-only beyond this size (see IntDom): wrap-freedom is the claim at large ell
+    t0 = time.time()
+    found, ndefs = vcalg.stream_eval(smt2, dom, re.compile(r"^\|VF_OUT#\d+\[\[[0-9A-F]+\]\]\|$"))
+    best = {}
+    for name, v in found.items():
+        m = re.match(r"^\|VF_OUT#(\d+)\[\[([0-9A-F]+)\]\]\|$", name)
+        k, i = int(m.group(1)), int(m.group(2), 16)
+        if i not in best or k > best[i][0]:
+            best[i] = (k, v)
+    outs = {i: kv[1] for i, kv in best.items()}
+    stats = {"vc_definitions": ndefs, "bv_operations_interpreted": dom.nops, "atoms": len(dom.names), "form": form, "ell": ell,
+             "nowrap_obligations_discharged_by_intervals": dom.obl_ok, "nowrap_obligations_open": len(dom.open),
+             "max_output_bits": max([o.hi.bit_length() for o in outs.values() if isinstance(o, vcalg.IPoly)] or [0]), "eval_s": round(time.time() - t0, 1)}
+    nres = 4 if form <= 2 else (8 if form == 3 else 16)
+    if len(outs) != nres or not all(isinstance(o, vcalg.IPoly) for o in outs.values()):
+        bad = [o for o in outs.values() if not isinstance(o, vcalg.IPoly)]
+        return {"status": "INCONCLUSIVE", "stats": stats, "detail": "outputs not interpretable: %r" % (bad[:1],)}
+    if dom.open:
+        return {"status": "FAIL", "stats": stats, "detail": "lazy arithmetic may exceed its word at ell=%d: %s" % (ell, "; ".join(dom.open[:3]))}
+    if not congruence:
+        stats["congruence"] = "not claimed at this ell (interval-only run); see the ell<=3 / ell=100 obligations and additivity of the accumulators"
+        stats["analysis_s"] = round(time.time() - t0, 1)
+        return {"status": "PASS", "stats": stats}
+    # congruence: operand atoms by (array, index)
+    xa = {i: a for (nm, i), a in dom.array_atoms.items() if "xbig" in nm}
+    ya = {i: a for (nm, i), a in dom.array_atoms.items() if "ybig" in nm}
+    for nm, a in dom.atoms.items():  # small arrays are scalarised by CBMC: element symbols xbig...[[HEX]]
+        m = re.search(r"(xbig|ybig)[^\[]*\[\[([0-9A-F]+)\]\]\|$", nm)
+        if m:
+            (xa if m.group(1) == "xbig" else ya)[int(m.group(2), 16)] = a
+    ins = {("VF_X", i): a for i, a in xa.items()}
+    ins.update({("VF_Y", i): a for i, a in ya.items()})
+    try:
+        spec = product_spec(form, ell, ins)
+    except KeyError as ex:
+        return {"status": "FAIL", "stats": stats, "detail": "an operand word is never read by the kernel: %r" % (ex,)}
+    ny = {0: 4, 1: 4, 2: 8, 3: 16, 4: 32}[form] * ell
+    for r, out in sorted(outs.items()):
+        k, terms = spec[r]
+        q = qs[k]
+        d = dict(out.t)
+        for (x_, y_) in terms:
+            m = tuple(sorted((x_, y_)))
+            d[m] = d.get(m, 0) - 1
+        if y32:
+            sub = {}
+            for i in range(0, ny, 2):
+                if ((i // 2) % 4) == k and ("VF_Y", i + 1) in ins:
+                    sub[ins[("VF_Y", i + 1)]] = ins[("VF_Y", i)]
+            d2 = {}
+            c32 = (1 << 32) % q
+            for m, c in d.items():
+                cc, mm = c, []
+                for a in m:
+                    if a in sub:
+                        cc *= c32
+                        mm.append(sub[a])
+                    else:
+                        mm.append(a)
+                mm = tuple(sorted(mm))
+                d2[mm] = d2.get(mm, 0) + cc
+            d = d2
+        rem = poly_mod(d, q)
+        if rem:
+            return {"status": "FAIL", "stats": stats, "detail": "output lane %d is not congruent to the %d-term sum modulo %d (%d residual monomials)" % (r, ell, q, len(rem))}
+    stats["lanes_congruent"] = len(outs)
+    stats["analysis_s"] = round(time.time() - t0, 1)
+    return {"status": "PASS", "stats": stats}
